@@ -95,16 +95,25 @@ def handleRun (j : Json) : Except String Json := do
     let script ← match t.getObjVal? "script" with
       | .ok s => parseScript s
       | .error _ => pure (fun _ => [])
-    pure (annotate cfg script [] evs))
+    let emptyAt ← getOptInt t "empty_at"
+    pure (annotate cfg script [] evs, emptyAt.map Int.toNat))
   let sched ← match j.getObjVal? "sched" with
     | .ok s => (← s.getArr?).toList.mapM (fun x => x.getNat?)
     | .error _ => pure []
-  -- every thread alone
-  let alone := threads.map (fun evs => run cfg none evs)
+  -- every thread alone; `empty_at n`: the installed tracepoint list is replaced by the empty list before event n
+  let alone := threads.map (fun (evs, ea) =>
+    match ea with
+    | none => run cfg none evs
+    | some n =>
+      let r1 := run cfg none (evs.take n)
+      let r2 := run [] r1.1 (evs.drop n)
+      (r2.1, r1.2 ++ r2.2))
+  let switched := threads.any (fun t => t.2.isSome)
+  let threads := threads.map (fun t => t.1)
   -- all threads interleaved
   let gs := interleave threads sched
   let g := runG cfg Store.empty gs
-  let agrees := (List.range threads.length).all (fun t =>
+  let agrees := switched || (List.range threads.length).all (fun t =>
     match alone[t]? with
     | some r => decide (projEff t g.2 = r.2) && decide (g.1 t = r.1)
     | none => false)
@@ -173,7 +182,12 @@ def handleForest (j : Json) : Except String Json := do
   let script ← match j.getObjVal? "script" with
     | .ok s => parseScript s
     | .error _ => pure (fun _ => [])
-  let ann := annotate cfg script [] (flattenForest forest0 0)
+  let ann0 := annotate cfg script [] (flattenForest forest0 0)
+  -- `empty_at n`: from event n on no tracepoint is installed = the gate refuses every action at its location
+  let emptyAt := (← getOptInt j "empty_at").map Int.toNat
+  let ann := match emptyAt with
+    | none => ann0
+    | some n => ann0.zipIdx.map (fun (e, i) => if i ≥ n then { e with denied := actionsFor cfg e } else e)
   let forest := decorateForest forest0 (ann.map (fun e => e.denied))
   let evs := flattenForest forest 0
   let noClash := forest.all (fun i => i.noClashB)
